@@ -42,7 +42,7 @@ FROM_AST_PY = REPO / "src/py_gql/sdl/schema_from_ast.py"
 
 CFG_KEYS = ["keepAllTypes", "deepClone", "accumulateBusted", "cloneSchemaDres",
             "extObjDres", "extFieldSub", "extFieldPy", "extIfaceRtype", "extUnionDesc", "extUnionRtype",
-            "extArgPy", "extInputPy", "extKeepAll", "extSchemaDres", "extInputFieldExtended"]
+            "extArgPy", "extInputPy", "extKeepAll", "extSchemaDres", "extInputFieldExtended", "cloneRegsDeep"]
 
 
 def read_cfg():
@@ -70,6 +70,13 @@ def read_cfg():
         "accumulateBusted": bool(re.search(r"busted_cache\s*=\s*busted_cache\s+or|busted_cache\s*\|=|if new_type != original_type:\s*\n\s*busted_cache = True", replace_src)),
         "cloneSchemaDres": "cloned.default_resolver" in clone_src,
     }
+    # how clone() copies the resolver registries: merge_resolvers (fresh inner dicts) or dict.update of the outer maps
+    if re.search(r"\.merge_resolvers\(\s*self\s*\)", clone_src):
+        cfg["cloneRegsDeep"] = True
+    elif re.search(r"\.resolvers\.update\(\s*self\.resolvers\s*\)", clone_src):
+        cfg["cloneRegsDeep"] = False
+    else:
+        raise ValueError("clone(): unexpected way of copying the resolver registries")
     bsrc = BUILDER_PY.read_text()
     btree = ast.parse(bsrc)
     kw = {}
@@ -816,6 +823,17 @@ def one_sequence(ctx, seed_note, size, n_steps, steps=None, build_seed=None):
         if found:
             failures = first_category(found)
             break
+    if not failures:
+        # (at the END of the sequence: the registrations on this extra clone must not interfere with the steps above)
+        reg_case = None
+        try:
+            cfg_now = getattr(ctx, "_c14_cfg", None)
+            if cfg_now is not None:
+                reg_case = W.registry_case(source, funcs, random.Random(seed ^ 0xFEED), bool(cfg_now.get("cloneRegsDeep", True)))
+        except Exception as e:  # noqa
+            ctx.notes.append("registry case failed: %s: %s" % (type(e).__name__, e))
+        if reg_case is not None:
+            ctx.__dict__.setdefault("_c14_reg_cases", []).append(reg_case + (seed, size))
     return record, failures, schemas, dumper, model_steps, base_world
 
 
@@ -846,7 +864,9 @@ def run(ctx):
         cfg = None
         ctx.notes.append("cfg extraction failed: %s" % e)
     ctx.extra["code_variant"] = cfg
-    n_seq = ctx.n(60, 500)
+    ctx._c14_cfg = cfg
+    ctx._c14_reg_cases = []
+    n_seq = ctx.n(48, 500)
     budget_each = 0.8
     batch = []
     seen_sigs = set()
@@ -898,6 +918,20 @@ def run(ctx):
                 ctx.fail("corr:closed-verdict", "closedness verdict of the model (closedB) differs from the identity check on the live objects",
                          {"record": record, "model": ans.get("closed"), "impl": pyc}, kind="correspondence")
     ctx.extra["sequences"] = len(batch)
+    # --- correspondence of the resolver REGISTRIES (source.clone() + registrations on the clone) with Registry.lean
+    reg_cases = ctx._c14_reg_cases
+    if reg_cases and ctx.model_ok:
+        answers = ctx.driver.ask([c[0] for c in reg_cases])
+        for (req, impl, seed, size), ans in zip(reg_cases, answers):
+            ctx.count()
+            if req["ops"]:
+                ctx.nontrivial(("regs", json.dumps(req["ops"], sort_keys=True)[:300], seed))
+            if ans.get("source") != impl["source"] or ans.get("clone") != impl["clone"]:
+                which = "source" if ans.get("source") != impl["source"] else "clone"
+                ctx.fail("corr:registries:%s" % which, "registries of the %s after clone() + registrations differ (impl vs model): %s"
+                         % (which, W.first_diff(impl[which], ans.get(which))),
+                         {"seed": seed, "size": size, "request": req, "impl": impl, "model": ans}, kind="correspondence")
+    ctx.extra["registry_cases"] = len(reg_cases)
 
 
 def shrink(ctx, record, sig):
